@@ -10,7 +10,7 @@ from typing import Any
 import anyio
 
 from . import vclock
-from .kernel import EXN, exc_name
+from .kernel import TYPES, EXN, exc_name
 
 # run() results that are neither None nor an int (truthy and falsy ones)
 NON_INTS = [lambda: "text", lambda: "", lambda: [], lambda: {}, lambda: 0.0, lambda: 2.5, lambda: b"", lambda: (0,),
@@ -74,7 +74,14 @@ def run_runner_case(case: dict[str, Any]) -> dict[str, Any]:
 
         def register(rs: list[dict[str, Any]]) -> None:
             for r in rs:
-                add_teardown_callback(make_cb(r), r["pass"])
+                if r.get("via") == "res":
+                    # handed over with a resource of two types: still one callback
+                    from asphalt.core import add_resource
+
+                    add_resource(TYPES[0](r["id"]), f"res{r['id']}", types=[TYPES[0], TYPES[1]],
+                                 teardown_callback=make_cb(r))
+                else:
+                    add_teardown_callback(make_cb(r), r["pass"])
                 log.append(["reg", r["id"], r["pass"]])
 
         register(regs[:half])
